@@ -433,7 +433,11 @@ def length_expressions(ctx, rng, n):
         endian, compiled = rng.choice("<>"), rng.random() < 0.5
         body = {"flat": f"uint8 d[{text_e}]; uint8 t;", "eof-rows": f"uint8 rows[EOF][{text_e}];",
                 "fixed-rows": f"uint8 rows[2][{text_e}]; uint8 t;", "counted-rows": f"uint8 rows[m][{text_e}]; uint8 t;"}[form]
-        text = pre + f"struct S {{ uint8 n; uint8 m; {body} }};"
+        # the fields the length names are direct members, or folded in through one or two levels of anonymous members
+        nest = rng.choice([0, 0, 1, 2])
+        head = ["uint8 n; uint8 m;", "struct { uint8 n; uint8 m; };", "struct { struct { uint8 n; }; union { uint8 m; uint8 m_too; }; };"][nest]
+        text = pre + f"struct S {{ {head} {body} }};"
+        ctx.cell(f"length-expression:fields-folded-{nest}-levels")
         det = {"workload": "length-expressions", "text": text, "expr": text_e, "form": form, "endian": endian, "compiled": compiled}
         try:
             cs = lib.load(text, endian, False, compiled)
